@@ -48,7 +48,9 @@ META = {
     "len)). A two-event grid is enumerated completely on every run, larger "
     "histories are sampled by the tens of thousands, and long accumulations "
     "of non-dyadic float deltas check the absence of drift over 10^3..10^4 "
-    "samples. Exploration level: sampled histories, exact comparison.",
+    "samples. ControlStream reads go through plain iteration, operator "
+    "expressions and the peek / take / copy methods. Exploration level: "
+    "sampled histories, exact comparison.",
   "soft_s": {"quick": 45, "thorough": 270},
   "technique": "runtime monitor: add/pull histories vs exact-rational event "
                "table (exhaustive two-event grid + random histories + long "
